@@ -39,7 +39,16 @@ OtherMethods == << <<70,79,79>>,                 \* "FOO"
                    <<73,110,118,105,116,101>>,   \* "Invite"
                    <<65,67,75,50>>,              \* "ACK2"
                    <<115,105,112,58,120>>,       \* "sip:x"
-                   <<83,73,80,47,51,46,48>> >>   \* "SIP/3.0"
+                   <<83,73,80,47,51,46,48>>,     \* "SIP/3.0"
+                   \* a known name with 4 / 8 / 1 more bytes, a truncated known name (bucket = first byte + length mod 4)
+                   <<73,78,86,73,84,69,45,101,120,116>>,          \* "INVITE-ext"
+                   <<66,89,69,66,89,69,33>>,                      \* "BYEBYE!"
+                   <<65,67,75,49,50,51,52,53,54,55,56>>,          \* "ACK12345678"
+                   <<82,69,71,73,83,84,69,82,83>>,                \* "REGISTERS"
+                   <<67,65,78,67,69>>,                            \* "CANCE"
+                   <<78,79,84,73,70,89,49,50,51,52>>,             \* "NOTIFY1234"
+                   <<83,73,80,47,50,46,48,45,69,88,84>>,          \* "SIP/2.0-EXT"  (starts like the version, but no space after it)
+                   <<115,105,112,47,50,46,48,120>> >>             \* "sip/2.0x"
 GenMethods == MethodNames \o SubSeq([k \in 1..Len(MethodNames) |-> LowerOf(MethodNames[k])], 1, Len(MethodNames))
                           \o OtherMethods
 IntendedMethodNo(a) == IF a <= Len(MethodNames) THEN a ELSE MOther
